@@ -12,7 +12,8 @@ V = os.path.dirname(os.path.dirname(os.path.abspath(__file__)))
 ENV = dict(os.environ, CARGO_NET_OFFLINE="true")
 # per property: crate, extra interpreter flags, (programs, seeds, batch) for quick / thorough, what runs
 TABLE = {
-    "C14": dict(crate="c14", flags="", quick=(60, 4, 6), thorough=(360, 12, 8)),
+    # (every program number runs a plain and a "wide" variant, see miri/c14/src/main.rs)
+    "C14": dict(crate="c14", flags="", quick=(48, 4, 6), thorough=(360, 12, 8), budget_quick=300),
     "C02": dict(crate="c02", flags="", quick=(6, 8, 1), thorough=(6, 64, 1)),
     "C03": dict(crate="c03", flags="", quick=(8, 8, 4), thorough=(8, 64, 4)),
     # crossbeam-epoch: its intrusive list needs Tree Borrows; garbage still awaiting an epoch at exit is not a leak
@@ -61,7 +62,7 @@ def main():
         print(f"replay of {replay} no longer violates {prop}")
         sys.exit(0)
     nprog, nseeds, batch = TABLE[prop]["quick" if tier == "quick" else "thorough"]
-    budget = float(os.environ.get("VERIF_MIRI_BUDGET_S", "120" if tier == "quick" else "600"))
+    budget = float(os.environ.get("VERIF_MIRI_BUDGET_S", str(TABLE[prop].get("budget_quick", 120)) if tier == "quick" else "600"))
     # C14's programs are generated from the program number; the other crates enumerate a few fixed variants
     first = seed * 1000 if prop == "C14" else 0
     execs = 0
@@ -116,7 +117,7 @@ def main():
         "property_id": "C14", "tier": tier, "seed": seed, "level": "exploration", "wall_s": wall, "violations": 1 if violation else 0,
         "coverage": {
             "evaluations": execs, "distinct_nontrivial": nontrivial,
-            "rule": "one evaluation = one seeded program (construct/clone/convert/compare/hash/hand-over/drop over SharedString and Key labels, 6-19 steps, two threads) executed under one Miri interpreter seed (seeded scheduler with pre-emption at basic-block granularity, weak-memory emulation); distinct = distinct (program, interpreter seed) pairs; non-trivial = the program handed at least one value to the other thread (counted by the program itself)",
+            "rule": "one evaluation = one seeded program number (for C14: its plain variant and its wide variant, which adds clone_from and failing label conversions, run back to back; construct/clone/convert/compare/hash/hand-over/drop over SharedString and Key labels, 6-19 steps, two threads) executed under one Miri interpreter seed (seeded scheduler with pre-emption at basic-block granularity, weak-memory emulation); distinct = distinct (program, interpreter seed) pairs; non-trivial = the program handed at least one value to the other thread (counted by the program itself)",
             "samples": samples, "engine": "Miri (cargo +nightly miri run -Zmiri-many-seeds), shadow manifest /verif/miri/metrics-shadow building /repo/metrics/src/lib.rs with the guard OFF",
             "programs": progs_done, "miri_seeds_per_program": nseeds, "programs_with_cross_thread_handover": sum(1 for v in handovers.values() if v > 0),
             "runs_per_hour": int(execs / wall * 3600) if wall > 0 else 0, "seeds_per_hour": int(execs / wall * 3600) if wall > 0 else 0,
